@@ -328,6 +328,12 @@ void run_t(const Prog &p, Mode mode) {
             cocls::promise<typename Tr<VT>::T> tmp(std::move(*c.prom));
             c.prom.emplace(std::move(tmp));
         }
+        if (p.moves >= 1) {
+            // move assignment of the promise to itself (through an alias) changes nothing
+            auto &alias = *c.prom; *c.prom = std::move(alias);
+            HZ_CHECK((bool)*c.prom, "a promise move-assigned to itself no longer owns its future");
+            HZ_CHECK(!c.f.ready(), "a promise move-assigned to itself resolved its future");
+        }
         if (p.assign_over) {
             // p2 = std::move(p): the future p2 owned so far is resolved to no-value at once, p is left empty, p2 owns p's future
             cocls::future<typename Tr<VT>::T> other;
